@@ -294,6 +294,31 @@ def _many_tracks():
     return SolutionTracks(g, segmentation=seg, ndim=3)
 
 
+def _long_tracks():
+    """a chain that crosses the 64-frame boundary of the exporter's time chunks: 63 -> 64 -> 65"""
+    from funtracks.data_model import SolutionTracks
+    seg = np.zeros((66, 2, 3), dtype="int32")
+    g = nx.DiGraph()
+    for k, t in ((1, 62), (2, 63), (3, 64), (4, 65)):
+        g.add_node(k, time=t)
+        seg[t, 0, 0:2] = k
+    g.add_edges_from([(1, 2), (2, 3), (3, 4)])
+    return SolutionTracks(g, segmentation=seg, ndim=3)
+
+
+def _bigtrack_tracks():
+    """small node ids, track ids of 256 and more handed in with the graph"""
+    from funtracks.data_model import SolutionTracks
+    seg = np.zeros((3, 2, 4), dtype="int32")
+    g = nx.DiGraph()
+    spec = {1: (0, 300, 7), 2: (1, 301, 7), 3: (1, 302, 7), 4: (2, 301, 7)}
+    for k, (t, tid, lid) in spec.items():
+        g.add_node(k, time=t, track_id=tid, lineage_id=lid)
+        seg[t, (k - 1) % 2, 0:2] = k
+    g.add_edges_from([(1, 2), (1, 3), (2, 4)])
+    return SolutionTracks(g, segmentation=seg, ndim=3)
+
+
 def c15_case(case):
     from funtracks.import_export import export_to_csv, export_to_geff
     kind, wname, seed_j, subset, fmt = case[:5]
@@ -306,7 +331,9 @@ def c15_case(case):
         m = {k: (n + 1 - k if case[5] == "desc" else (k - 1 if case[5] == "zero" else k + 300)) for k in seed["nodes"]}
         seed = {"nodes": {m[k]: v for k, v in seed["nodes"].items()}, "edges": [(m[u], m[v]) for u, v in seed["edges"]]}
         subset = [m[k] for k in subset]
-    if len(case) > 5 and case[5] == "many":
+    if len(case) > 5 and case[5] in ("long", "bigtracks"):
+        tracks = _long_tracks() if case[5] == "long" else _bigtrack_tracks()
+    elif len(case) > 5 and case[5] == "many":
         tracks = _many_tracks()
         allids = sorted(int(n) for n in tracks.graph.nodes)
         subset = [allids[i] for i in subset]
@@ -388,6 +415,12 @@ def c15_cases(tier):
     # many kept nodes with wide sparse ids: all leaves but k of them (indices into the sorted ids)
     leaves = list(range(12, 24))
     one = worlds.seed_to_json({"nodes": {1: (0, (0, 1, 0, 1))}, "edges": []})
+    for sub in ((3,), (4,), (2, 4), (1,)):
+        yield ("subset", "seg-2d-core", one, sub, "geff", "long")
+        yield ("subset", "seg-2d-core", one, sub, "csv", "long")
+    for sub in ((4,), (3,), (2, 3), (1,)):
+        yield ("subset", "seg-2d-core", one, sub, "csv", "bigtracks")
+        yield ("subset", "seg-2d-core", one, sub, "geff", "bigtracks")
     for drop in ([], [0], [0, 5], [3, 7, 11], [0, 1, 2, 3, 4, 5]):
         sel = tuple(i for i in leaves if (i - 12) not in drop)
         yield ("subset", "seg-2d-core", one, sel, "geff", "many")
